@@ -140,6 +140,36 @@ func (b *Base) DoClose() error {
 }
 func (b *Base) Ret(m string) string { return b.C.Rets[m] }
 
+// Current is the scenario the worker is running; components whose type cannot hold a wx.Base (a named int, slice,
+// channel ...) report their Run / Close calls through it.
+var Current *Scn
+
+// GlobalEvent logs a runner / closer call of a component that is identified by its address and type only.
+func GlobalEvent(kind string, self any) error {
+	s := Current
+	if s == nil {
+		return nil
+	}
+	r, ok := s.Origs[okey(reflect.ValueOf(self))]
+	if !ok {
+		return nil
+	}
+	s.Log = append(s.Log, Event{K: kind, P: -1, C: r})
+	for i := range s.Cfg.Comps {
+		c := &s.Cfg.Comps[i]
+		if c.Rank != r {
+			continue
+		}
+		if kind == "run" && c.RunFail {
+			return errors.New("run failed")
+		}
+		if kind == "close" && c.CloseErr {
+			return errors.New("close failed")
+		}
+	}
+	return nil
+}
+
 // NameMix gives a function-local type (which cannot declare methods) its component name through a promoted method.
 type NameMix struct{ N string }
 
@@ -598,6 +628,7 @@ func RunScenario(cfg *ScnCfg) (res Result) {
 		s.Origs[okey(reflect.ValueOf(insts[i]))] = c.Rank
 	}
 	s.Instances = insts
+	Current = s
 	if !cfg.Twice {
 		return runOnce(cfg, s, insts)
 	}
